@@ -1101,3 +1101,72 @@ func init() {
 			}
 		}})
 }
+
+func init() {
+	register(&Rule{ID: "DB.byid", Min: 3, Text: "a document looked up by its id is found whether or not it was removed: in the memory backend, a function that reads the documents table through an id index (\"id\", \"project_id_id\") does not let RemovedAt decide what it returns (no test of RemovedAt on the rows it reads) — the MongoDB sibling matches on _id alone, and the lifecycle needs it: a client must still be detached, on Deactivate, from a document a peer removed. Lookups by key (\"project_id_key…\") are the ones that prefer the live document",
+		Run: func(x *Ctx) {
+			n := 0
+			for _, fn := range x.P.FuncsIn(memPkg) {
+				if len(fn.Blocks) == 0 {
+					continue
+				}
+				byID := false
+				for _, c := range prog.CallsIn(fn) {
+					o := prog.CallObj(c)
+					if o == nil || o.Pkg() == nil || !strings.Contains(o.Pkg().Path(), "memdb") || !(o.Name() == "First" || o.Name() == "Get") {
+						continue
+					}
+					args := c.Common().Args
+					if len(args) < 3 {
+						continue
+					}
+					isDocs := false
+					if u, ok := prog.Strip(args[1]).(*ssa.UnOp); ok {
+						if g, isG := u.X.(*ssa.Global); isG && g.Name() == "tblDocuments" {
+							isDocs = true
+						}
+					}
+					idx, _ := constString(args[2])
+					if isDocs && (idx == "id" || idx == "project_id_id") {
+						byID = true
+					}
+				}
+				if !byID {
+					continue
+				}
+				// functions that change the removed state read it on purpose (they are writers); readers must not filter
+				writes := false
+				for _, c := range prog.CallsIn(fn) {
+					if o := prog.CallObj(c); o != nil && o.Pkg() != nil && strings.Contains(o.Pkg().Path(), "memdb") && (o.Name() == "Insert" || o.Name() == "Delete") {
+						writes = true
+					}
+				}
+				if writes {
+					continue
+				}
+				n++
+				bad := ""
+				for _, b := range fn.Blocks {
+					iff := prog.IfOf(b)
+					if iff == nil {
+						continue
+					}
+					if prog.DependsOn(iff.Cond, func(w ssa.Value) bool {
+						switch t := w.(type) {
+						case *ssa.FieldAddr, *ssa.Field:
+							f := prog.FieldVar(t.(ssa.Value))
+							return f != nil && f.Name() == "RemovedAt"
+						}
+						return false
+					}) {
+						bad = x.pos(iff)
+					}
+				}
+				x.check(bad == "", "func="+prog.FnName(fn)+" id-lookup-ignores-RemovedAt", x.fpos(fn), "the row found by id is returned whatever its RemovedAt",
+					"a lookup of a document by id filters on RemovedAt (at "+bad+"), unlike its MongoDB sibling: a client that still has a document attached which a peer removed cannot deactivate — Deactivate insists on finding every attached document — and keeps its attachment and its version-vector row for good")
+			}
+			if n < 3 {
+				x.C.Vacuous(x.id()+" read-only lookups of a document by id", n, 3)
+			}
+		}})
+}
